@@ -203,11 +203,19 @@ def check_ladder_arguments(ctx: Ctx, rule: str, lt: dict, kinds=("retry", "resch
 
 
 # ----------------------------------------------------------------------------- Parameters transfer functions
+def _is_setattr_wrapper(fn: FuncInfo) -> bool:
+    """`def _set_frozen(instance, name, value): object.__setattr__(instance, name, value)`"""
+    ps = [p.arg for p in fn.params()]
+    calls = [c for c in ast.walk(fn.node) if isinstance(c, ast.Call)]
+    return len(ps) == 3 and len(calls) == 1 and dotted(calls[0].func) in ("object.__setattr__", "setattr") and [dotted(a) for a in calls[0].args] == ps
+
+
 def setattr_stores(f: FuncInfo) -> list[tuple[ast.expr, str, ast.expr, ast.AST]]:
-    """(object expr, field, value expr, node) for object.__setattr__(obj, "field", value), setattr(...) and obj.field = value."""
+    """(object expr, field, value expr, node) for object.__setattr__(obj, "field", value), setattr(...), thin wrappers of it, and obj.field = value."""
     out = []
+    wrappers = {name for name, fn in f.module.functions.items() if _is_setattr_wrapper(fn)}
     for n in ast.walk(f.node):
-        if isinstance(n, ast.Call) and (dotted(n.func) in ("object.__setattr__", "setattr")) and len(n.args) == 3 \
+        if isinstance(n, ast.Call) and (dotted(n.func) in ("object.__setattr__", "setattr") or dotted(n.func) in wrappers) and len(n.args) == 3 \
                 and isinstance(n.args[1], ast.Constant) and isinstance(n.args[1].value, str):
             out.append((n.args[0], n.args[1].value, n.args[2], n))
         elif isinstance(n, ast.Assign):
